@@ -211,9 +211,9 @@ func runC19(e *Engine, tier Tier) *PropRun {
 		Claim: func(o *Obligation) bool {
 			return o.Kind == "crash" || o.Kind == "struct" || ((o.Kind == "post" || strings.HasPrefix(o.Kind, "inv")) && strings.Contains(o.Fn, "Format"))
 		},
-		Level: "other",
+		Level:       "other",
 		Explanation: "Crash-state and write discipline of the two in-place rewriters (format -i in Formatter.Format, lint --auto-fix in lintRun), with the file-system primitives as assumed contracts (os.WriteFile/Create/OpenFile truncate their target; os.Rename replaces atomically). crash obligations: no truncating write is applied to the path of a file being processed (path provenance over SSA); inside writeFileAtomic the destination path is touched by os.Rename only, and the rename is reached only on paths where every earlier fallible step (CreateTemp, Write, Sync, Close, Chmod) returned nil (path conditions from the VC generator). struct obligations at every file-system write in Formatter.Format: Opts.Check is false there (check-only never writes) and the file's own processing succeeded (fileResult.Error == nil).",
-		NotCovered: []string{"process exit status and stdout of the built binary, cobra flag plumbing, glob expansion", "validate / parse verdicts and machine-readable reports (JSON, SARIF)", "three-way consistency print / -i / --check beyond sharing the same Changed flag", "lint --auto-fix rewriting a file although one rule's Fix returned an error", "a crash between rename and directory sync (durability)", "the --output file of format and lint (not in-place; written with os.WriteFile)"},
+		NotCovered:  []string{"process exit status and stdout of the built binary, cobra flag plumbing, glob expansion", "validate / parse verdicts and machine-readable reports (JSON, SARIF)", "three-way consistency print / -i / --check beyond sharing the same Changed flag", "lint --auto-fix rewriting a file although one rule's Fix returned an error", "a crash between rename and directory sync (durability)", "the --output file of format and lint (not in-place; written with os.WriteFile)"},
 		Assumptions: []string{"os.Rename within one directory is atomic; os.WriteFile/os.Create/os.OpenFile may leave a truncated file", "os.CreateTemp in the destination directory yields a path on the same file system"},
 	}
 }
